@@ -47,25 +47,3 @@ Proof. vm_compute. reflexivity. Qed.
 Theorem c03_run_once : forall s, wf_groups s -> wf_snapshot s = true -> for_groups check_C03_group s (run_journals s) = true.
 Proof. exact run_passes_C03. Qed.
 Print Assumptions c03_run_once.
-
-(* ---------- the tie to the source: GeneratedCtl.v is re-derived from the Go source on every run (harness gen --out-ctl);
-   the decisions this property rests on, as the code states them today, are the model's ---------- *)
-From Esc Require Import GeneratedCtl proofs.GenCtlAgree proofs.GenCtlAgree_Down proofs.GenCtlAgree_MinMax.
-
-(* scale_down.go scaleDownTaint: the model's scale_down_taint taints what the code's clamp says, refuses where it refuses *)
-Theorem c03_src_clamp : forall e o mn dry st untainted want, 0 <= want ->
-  scale_down_taint e o mn dry st untainted want =
-  match gen_scaleDownTaint mn untainted want with
-  | GCall _ [GL l; GI n] =>
-      let '(calls, _, tr) := taint_loop e o dry (sort_oldest l) n 0 (g_taint_tracker st) in (liftK calls, false, with_tracker st tr)
-  | _ => ([], true, st)
-  end.
-Proof. exact gen_scale_down_taint. Qed.
-Print Assumptions c03_src_clamp.
-
-(* controller.go RunOnce: the min_nodes a scan runs with is effective_min_max *)
-Theorem c03_src_min_max : forall o g,
-  (exists mn mx c, gen_RunOnce_minmax o true g = GCall c [GI mn; GI mx] /\ effective_min_max o g = (mn, mx))
-  /\ gen_RunOnce_minmax o false g = GRet [GE true].
-Proof. exact gen_RunOnce_minmax_agree. Qed.
-Print Assumptions c03_src_min_max.
